@@ -791,6 +791,13 @@ impl<P: RuntimeProvider + Send + Sync> SqliteZoneHandler<P> {
                     //  RR.
 
                     // zone     rrset    rr       Add to an RRset
+                    if rr.record_type() == RecordType::SOA && rr_name != *self.origin() {
+                        // the only SOA RR of a zone is at its apex: "if the TYPE is SOA and
+                        // there is no Zone SOA RR [...] the Update RR is ignored"
+                        info!("ignoring SOA update for non-apex name: {rr_name}");
+                        continue;
+                    }
+
                     info!("upserting record: {rr:?}");
                     let upserted = self.in_memory.upsert(rr.clone(), serial).await;
 
